@@ -241,6 +241,7 @@ def run(ctx):
             k += 1
             res.sample({"family": tag, "residues": [str(r) for r in st.residues][:8],
                         "stackings": ["%s-%s:%s" % (st.residues[a], st.residues[b], t) for a, b, t in yes][:6]})
+    __import__("corr.fn_common", fromlist=["run_fn"]).run_fn(ctx, res, "C04")  # regenerated functions vs the real ones (tools/py2lean.py)
     return res
 
 
